@@ -4,7 +4,7 @@ from __future__ import annotations
 import ast
 from typing import Dict, List, Optional, Set
 
-from .. import fx, q
+from .. import memo, fx, q
 from ..core import AnchorError, Ctx, FuncInfo, dotted, guard_facts, norm, walk_no_nested
 from ..rewrite import single_bindings
 
@@ -33,6 +33,7 @@ TEXP = "ast2logic.t_expression.translate_expression"
 
 def run(ctx: Ctx):
     an = fx.effects(ctx)
+    memo.check_memo_keys(ctx, ("ast2logic.", "qlassfun.", "boolopt."))
     repo = ctx.repo
     tl = repo.func("qlassfun.QlassF.to_logicfun")
     # whether the result is a fresh copy is informational: what the property needs is that nothing reachable from
